@@ -163,7 +163,7 @@ fn read_err_code(e: &ArchiveReadError) -> &'static str {
         ArchiveReadError::MetadataFileNotFound(_) => "metadata-not-found",
         ArchiveReadError::MetadataDeserializeError { .. } => "metadata-deserialize",
         ArchiveReadError::PackageGraphConstructError { .. } => "package-graph",
-        // the variant added by the F9 repair (matched by name so that the harness also builds
+        // the variant added by the F19 repair (matched by name so that the harness also builds
         // against a tree without it)
         other if format!("{other:?}").starts_with("LinkEntry") => "link-entry",
         _ => "read-other",
